@@ -2,7 +2,7 @@
 # tools/runall.sh [tier] [seed] [ids...]: run checks, print one line per check
 TIER="${1:-quick}"; SEED="${2:-0}"; shift 2 2>/dev/null
 IDS="${@:-C01 C02 C03 C04 C05 C06 C07 C08 C09 C10 C11 C12 C13 C14 C15 C16 C17 C18 C19 C20}"
-cd /verif
+cd "$(dirname "$(readlink -f "$0")")/.."
 for id in $IDS; do
   s=$(date +%s)
   out=$(VERIF_SEED=$SEED ./check $id $TIER 2>&1); rc=$?
